@@ -34,6 +34,8 @@ func main() {
 		cmdSched(args)
 	case "copybin":
 		cmdCopyBin(args)
+	case "multi":
+		cmdMulti(args)
 	case "segplay":
 		cmdSegPlay(args)
 	case "reader":
@@ -334,4 +336,42 @@ func cmdSegPlay(args []string) {
 	})
 	tw.close()
 	fmt.Printf("played %d behaviours x 5 segmentations, %d trace lines\n", n, tw.lines)
+}
+
+// cmdMulti: concurrent sessions on one server under TLC-generated interleavings;
+// one execution per connection in the trace.
+func cmdMulti(args []string) {
+	fs := flag.NewFlagSet("multi", flag.ExitOnError)
+	in := fs.String("in", "", "schedules (ndjson)")
+	out := fs.String("out", "trace.ndjson", "abstract trace (ndjson)")
+	seed := fs.Int64("seed", 1, "seed")
+	progress := fs.String("progress", "", "progress file")
+	seedIndex := fs.Int("seedindex", 0, "seed index offset")
+	proj := fs.String("proj", "", "projection")
+	fs.Parse(args)
+	tw := newTraceWriter(*out)
+	var pf *os.File
+	if *progress != "" {
+		pf, _ = os.Create(*progress)
+	}
+	n := 0
+	eachBehaviour(*in, func(i int, b run.M) {
+		if pf != nil {
+			pf.Seek(0, 0)
+			fmt.Fprintf(pf, "%-12d\n", i)
+		}
+		rng := rand.New(rand.NewSource(*seed*1000003 + int64(i+*seedIndex)))
+		traces, err := run.PlayMulti(b, rng, run.Projections[*proj])
+		if err != nil {
+			die("schedule %d: %v", i, err)
+		}
+		var all []run.M
+		for _, t := range traces {
+			all = append(all, t...)
+		}
+		tw.writeExec(all, i)
+		n++
+	})
+	tw.close()
+	fmt.Printf("played %d concurrent schedules, %d trace lines\n", n, tw.lines)
 }
